@@ -142,6 +142,10 @@ theorem roundTrip_contract (P : Params) (hP : P.OK) (n0 : Nat) (s : Sketch) (ids
     · intro _
       exact ⟨⟨v, by simp only; rw [sb5.st _ _ (fun x => by omega)]; exact hst4⟩, ⟨v, hst5⟩⟩
     · intro _; simp only [hg0]; omega
+    · have hg1 : [c - 1, c].getD 1 0 = c := by simp
+      simp only [sumSampleWeights_eq, wsum, pop, hg0, hg1]
+      omega
+    · exact Or.inl rfl
   · simp only [hs, if_true, decide_false, Bool.not_false, if_false]
     rw [← lok.cap]
     obtain ⟨L1, eL1, hlen1, hg1⟩ := copyLevels_ok s.levels s.numLevels 0 (List.replicate (s.numLevels + 1) 0)
@@ -206,5 +210,7 @@ theorem roundTrip_contract (P : Params) (hP : P.OK) (n0 : Nat) (s : Sketch) (ids
       · rw [snew.st, sb3.st _ _ (fun x => by omega)]; exact hst2
       · rw [snew.st]; exact hst3
     · intro _; simp only; rw [hgL 0 (Nat.zero_le _)]; exact u.ret hn0
+    · simp only; rw [sumSampleWeights_congr hgL]; exact u.wt
+    · exact u.pw
 
 end DS.Life.Kll
